@@ -104,3 +104,84 @@ def uring_ingress_delivery(h):
     h.check(popped == delivered, "c20.ingress.decoded-message-never-reached-the-socket-queue-or-order-changed",
             f"decoded {[hex(x) for x in delivered]}, the application got {[hex(x) for x in popped]}")
     h.cover("c20.ingress.all-delivered", len(delivered) >= 2)
+
+
+def uring_egress_order(h):
+    """send side of the io_uring handler: ZmtpUringHandler::{prepare_sqes, handle_internal_sqe_completion} with a real
+    engine in the Data phase. Steps: the socket queues a message for the connection, the worker asks the handler for
+    SQEs, a write completes. Checked: never more than one write in flight (a second write while one is outstanding could
+    complete first or interleave), the bytes of all write requests together are the frames of the queued messages in
+    order, each once, and each request's batch_count is the number of messages it carries."""
+    from .d_c02 import _mk_msg
+    from .d_c07 import _data_engine
+    from ..models import _ChanM
+    prog = h.it.prog
+    k = h.params.get("ops", 5)
+    eng = _data_engine(h, True, -1, False)
+    ch = _ChanM(8)
+    fields = prog.struct_fields(H, features=FEAT)
+    vals = {"fd": 7, "engine": eng.load(), "egress_rx": BoxV(Cell(Agg("{chan.rx}", [ch]), "egress_rx"), ()),
+            "ingress_sender": none(), "spillover": Seq("vecdeque", [], "message::FrameBatch"),
+            "is_throttled": Agg("{atomic}", [False]), "multishot_reader": none(), "is_closing": False, "close_deadline": none(),
+            "use_send_zerocopy": False, "use_recv_multishot": False, "send_buffer_slot_size": 65536,
+            "coalesce_scratch": Seq("vec", [], "message::FrameBatch"), "write_in_flight": 0}
+    handler = Ref(Cell(Agg(H, [vals.get(f, Opaque(f)) for f in fields]), "handler"), ())
+    IFACE = "io_uring_backend::connection_handler::UringWorkerInterface"
+    ifields = prog.struct_fields(IFACE, features=FEAT)
+    def iface(write_completion):
+        v = {"fd": 7, "pending_egress_count": 0, "is_write_completion": write_completion, "egress_cap": 8, "current_external_op_ud": 0,
+             "buffer_manager": none(), "default_bgid_for_handler_use": none()}
+        return Ref(Cell(Agg(IFACE, [v.get(f, Opaque(f)) for f in ifields]), "iface"), ())
+    h.panic_role = "c20.egress"
+    queued, wire, in_flight = [], [], 0
+    nxt = 0x20
+    def collect(ops):
+        """write requests among the blueprints of a HandlerIoOps value"""
+        nonlocal in_flight
+        bps = ops.f[0]
+        items = bps.f if isinstance(bps, Seq) else _deref(bps).f
+        for bp in items:
+            if isinstance(bp, Enum) and bp.vname == "RequestSendRawVectored":
+                bufs, count = bp.f[0], bp.f[2]
+                data = []
+                for b in bufs.f:
+                    data += list(b.f)
+                # frames of our messages: [flags, 1, tag]
+                tags = [data[i + 2] for i in range(0, len(data), 3)]
+                h.check(len(data) % 3 == 0 and all(data[i] == 0 and data[i + 1] == 1 for i in range(0, len(data), 3)), "c20.egress.wire-bytes-are-not-the-frames-of-the-queued-messages", str(data[:12]))
+                h.check(count == len(tags), "c20.egress.batch-count-differs-from-messages-in-the-request", f"batch_count {count}, messages {len(tags)}")
+                wire.extend(tags)
+                in_flight += 1
+                h.check(in_flight <= 1, "c20.egress.second-write-issued-while-one-is-in-flight")
+                h.cover("c20.egress.coalesced", len(tags) > 1)
+            elif isinstance(bp, Enum) and bp.vname in ("RequestSend", "RequestSendZeroCopy"):
+                h.check(False, "c20.egress.unexpected-send-blueprint", bp.vname)
+    def prepare():
+        ops = h.method(H, "prepare_sqes", handler, iface(False), trait="UringConnectionHandler")
+        collect(ops)
+    for i in range(k):
+        op = h.choose(3, f"op{i}")              # 0 the socket queues a message; 1 the worker prepares SQEs; 2 the outstanding write completes
+        if op == 0:
+            fb = Ref(Cell(h.method("message::FrameBatch", "new"), "fb"), ())
+            h.method("message::FrameBatch", "push", fb, _mk_msg(h, nxt, False))
+            ch.items.append(fb.load())
+            queued.append(nxt)
+            nxt += 1
+        elif op == 1:
+            prepare()
+        else:
+            if in_flight == 0:
+                from ..interp import PathAbort
+                raise PathAbort("no write outstanding")
+            h.method(H, "handle_internal_sqe_completion", handler, 0, 3, 0, iface(True), trait="UringConnectionHandler")
+            in_flight -= 1
+        h.check(wire == queued[:len(wire)], "c20.egress.messages-written-out-of-order-or-twice", f"queued {queued}, written {wire}")
+    for _ in range(len(queued) + 2):
+        if in_flight:
+            h.method(H, "handle_internal_sqe_completion", handler, 0, 3, 0, iface(True), trait="UringConnectionHandler")
+            in_flight -= 1
+        prepare()
+        if not ch.items and not in_flight:
+            break
+    h.check(wire == queued, "c20.egress.queued-message-never-written-or-order-changed", f"queued {[hex(x) for x in queued]}, written {[hex(x) for x in wire]}")
+    h.cover("c20.egress.all-written", len(queued) >= 2)
